@@ -90,6 +90,9 @@ def small_bodies() -> list[dict[str, Any]]:
                 # ordinary annotations of look-alike domains: the key merely BEGINS with the characters of a managed prefix
                 {'kopf.zalando.org.uk/x': 'v', 'kopf.zalando.orgx': 'n', 'my-op.example.community/b': '2', 'my-op.example.com.x/a': '1'},
                 {'other.example.com/kopf-managed': 'yes', 'other.example.com.internal/y': 'w', 'other.example.community/z': 'k'},
+                # ordinary annotations under a SUBDOMAIN of a marked custom prefix: only kopf.zalando.org extends to its subdomains
+                {'my-op.example.com/kopf-managed': 'yes', 'my-op.example.com/fn': '{}', 'backup.my-op.example.com/schedule': 'daily',
+                 'other.example.com/kopf-managed': 'yes', 'team.other.example.com/owner': 'x'},
                 {'kopf.zalando.org/touch-dummy': 't', 'kopf.zalando.org/fn': '{"retries":1}', 'my-op.example.com/kopf-managed': 'yes',
                  'my-op.example.com/fn': '{}'}]
     statuses = [None, {}, {'other': 1}, {'kopf': {'progress': {'fn': {'retries': 1}}, 'dummy': 'd'}, 'myop': {'progress': {'fn': {}}, 'last': '{}'}}]
